@@ -15,6 +15,9 @@ func applyInc(skel *Skeleton, orig []byte, op Op, path *Path) error {
 	if len(op.Value) == 0 {
 		return fmt.Errorf("%w: INC requires Value", ErrInvalidOp)
 	}
+	if err := validateOpValue(op.Value); err != nil {
+		return err
+	}
 	di, du, df, deltaClass, err := readNumericLeaf(op.Value)
 	if err != nil {
 		return err
